@@ -121,6 +121,15 @@ def run(ctx):
             rs = ctx.ret_values(f)
             ok = len(rs) == 1 and rs[0].startswith("core::result::Result::Ok{") and bool(re.search(conv, rs[0])) or len(rs) == 1 and rs[0] == "core::result::Result::Ok{a1}"
             ctx.ob("C11.G.string-as-it-stands", f.key, "return", ok, "returns %s" % rs)
+    # ---------------------------------------------------------------- "wrong meta form yields an error"
+    # none of the scalar targets overrides from_expr: a name-value whose value is not a literal (or an
+    # invisible group around one) is decided by the default from_expr (rules shared with C15)
+    core = ctx.core("on")
+    for ty in NUMS + FLOATS + ["bool", "char", "alloc::string::String", "std::path::PathBuf"]:
+        imp = [i for i in core["impls"] if i["trait"] == "darling_core::from_meta::FromMeta" and i["self"] == ty]
+        ctx.ob("C11.S.no-own-from-expr", "<%s as FromMeta>" % ty, "from_expr / from_meta / from_nested_meta left at the default", len(imp) == 1 and not ({"from_expr", "from_nested_meta"} & set(imp[0]["items"])) and ("from_meta" not in imp[0]["items"] or ty == "bool"), "%s" % [i["items"] for i in imp])
+    from .C15 import default_expr_routing_rules
+    default_expr_routing_rules(ctx, "C11.route")
     # ---------------------------------------------------------------- "never a panic"
     # closed census over the scalar hooks and every darling function they reach (error constructors
     # included): a panic-capable construct needs a row of the shared table with a discharged guard
